@@ -44,6 +44,8 @@ type runner struct {
 	decl  map[string]bool
 	fails map[string]bool
 	rot   int
+	// mustReject: oracle signature to fail with when a transaction of the current family is accepted
+	mustReject string
 }
 
 func (r *runner) fail(sig, desc string, replay any) {
@@ -338,6 +340,9 @@ func (r *runner) oracle(path, label string, tx *lib.Transaction, bz []byte, oc o
 		return
 	}
 	replay := map[string]any{"tx": drv.Hex(bz), "case": r.o.CurCase(), "label": label, "path": path, "diff": d.line()}
+	if r.mustReject != "" {
+		r.fail(r.mustReject, fmt.Sprintf("%s %s: accepted (%s path) although it must be refused: %s", r.o.CurCase(), label, path, d.line()), replay)
+	}
 	if tampered != "" {
 		r.fail("C05:tampered-tx-accepted:"+tampered, fmt.Sprintf("%s: a transaction whose field %s was changed after signing was accepted (%s path)", r.o.CurCase(), tampered, path), replay)
 	}
@@ -423,7 +428,7 @@ func (r *runner) oracle(path, label string, tx *lib.Transaction, bz []byte, oc o
 // ---------------------------------------------------------------------------------------------
 // one transaction through the paths
 
-func (r *runner) offer(label string, tx *lib.Transaction, tampered string, warm []byte, pathSel []string) {
+func (r *runner) offer(label string, tx *lib.Transaction, tampered string, warm []byte, pathSel []string) []string {
 	bz := txBytes(tx)
 	cid := r.declareContent(tx)
 	if tx.Signature != nil && lib.IsRLPMemo(tx.Memo) {
@@ -487,6 +492,7 @@ func (r *runner) offer(label string, tx *lib.Transaction, tampered string, warm 
 			r.o.Sample(fmt.Sprintf("%s %s -> %s", r.o.CurCase(), label, results[0]))
 		}
 	}
+	return results
 }
 
 // ---------------------------------------------------------------------------------------------
@@ -760,6 +766,8 @@ func Run(o *drv.Out) {
 	for i, sc := range schemes {
 		(&runner{o: o, w: w, sc: sc, mode: sc, kind: fsm.MessageSendName, seen: seen, fails: fails}).runLanes(i)
 	}
+	// multisig keys whose signer bitmap has padding bits (indices >= n) raised
+	(&runner{o: o, w: w, sc: "multi", mode: "multi", kind: fsm.MessageSendName, seen: seen, fails: fails}).runPaddingBits()
 	// the same table with every governance proposal rejected by the local configuration
 	w.sm.SetProposalVoteConfig(fsm.RejectAllProposals)
 	for _, kind := range []string{fsm.MessageChangeParameterName, fsm.MessageDAOTransferName} {
